@@ -186,6 +186,11 @@ class Unsigned(BitVector):
         if isinstance(rhs, int):
             rhs = -(rhs % 2**self.width)
 
+        elif isinstance(rhs, Unsigned):
+            # zero-extend to the result width before negating, otherwise
+            # the two's complement is taken in the narrower width
+            width = max(self.width, rhs.width, target_width or 0)
+            rhs = -Unsigned[width](rhs)
         else:
             rhs = -rhs
 
